@@ -543,10 +543,10 @@ class SiteAnalysis:
             seq_members = [m for m in members(U) if m[0] in ("seq", "list")]
             for e_alt in sorted(members(v[1]), key=repr):
                 item_root = ("#" + leaf.var,)
+                # the element world keeps what is known about the whole value (the element expression may look at
+                # the input again, e.g. a target type chosen by a test on object_[0])
                 start = World(None, w)
-                start.alt = {item_root: e_alt}
-                start.keys = {}
-                start.empty = {}
+                start.alt = {**w.alt, item_root: e_alt}
                 stack = [start]
                 guard = 0
                 while stack:
@@ -562,7 +562,12 @@ class SiteAnalysis:
                                 infeasible = True
                         if infeasible:
                             continue
-                        sub_leaf = ev._leaf(leaf.elt, w2, {leaf.var: item_root})
+                        saved_env = ev.valenv
+                        ev.valenv = list(getattr(leaf, "frames", [])) or saved_env
+                        try:
+                            sub_leaf = ev._leaf(leaf.elt, w2, {**getattr(leaf, "extra", {}), leaf.var: item_root})
+                        finally:
+                            ev.valenv = saved_env
                         elem_U = mk_union([m[1] for m in seq_members]) if seq_members else ANY
                         sub_issues = self.judge(ev, site, e_alt, w2, sub_leaf, U=elem_U, root=item_root)
                     except Fork as f:
